@@ -94,7 +94,6 @@ PROPS["C08"] = {
     "rule": "graphs out of gc/rw histories (after collections, stale slots, heap and inline data with padding, unread and read data, all label variants with 1-4 byte characters), N in {1,2,4,16}, capacity 3..64; save, reload, then the same continuation on the original and the reloaded graph and different continuations with the other handle observed; non-trivial = at least one collection in the history",
     "nontrivial": "collections",
     "modelled": SER_MODELLED,
-    "partial": ["WfG (sizes fit 64-bit fields, <= N edges, <= 16 members) is a hypothesis of load_save; it is proved for a concrete graph and holds of every reachable graph, but `Reach -> WfG` is not yet a theorem"],
 }
 PROPS["C09"] = {
     "quick": [("ser", 80, 90)],
@@ -102,7 +101,6 @@ PROPS["C09"] = {
     "rule": "for each sampled graph the real load() is called on prefixes of the real image: quick = the first and last 64 cut points and every 7th in between, thorough (serall) = every cut point; evaluations counts cut points; non-trivial = a history whose graph holds at least one collection-surviving state (>= 5 judged calls)",
     "nontrivial": "any5",
     "modelled": SER_MODELLED,
-    "partial": ["WfG is a hypothesis of truncated_rejected (see C08)"],
 }
 PROPS["C10"] = {
     "quick": [("fork", 250, 120)],
